@@ -200,6 +200,8 @@ func TestC12Run(t *testing.T) {
 		}
 		patterns = append(patterns, sb.String())
 	}
+	// patterns whose only special characters are backslash escapes
+	patterns = append(patterns, `\d`, `\d\d`, `\s`, `a\sa`, `\w\w\w`, `\Aa`, `\bL`, `a\b`, `\S\s\S`, `\x61`, `\.`, `\\`)
 	// long patterns (thousands of bytes: generated alternations, as scripts produce them); the alternative that decides
 	// stands at the very end, so a pattern cut short on its way selects differently
 	for _, n := range []int{120, 450, 900} {
@@ -307,4 +309,76 @@ func TestC12Mapr(t *testing.T) {
 		out = append(out, r)
 	}
 	vWriteJSON(t, "VERIF_OUT", out)
+}
+
+// Several files in one dgrep request: the pattern and the options (invert, before, after, max) apply to every file - each
+// file's selection equals the selection of a request for that file alone (which TestC12Run judges against the Ref).
+func TestC12TwoFiles(t *testing.T) {
+	vInit("stdout")
+	dir, _ := os.MkdirTemp("", "c12t-")
+	defer os.RemoveAll(dir)
+	probe, lines := c12Probe(dir)
+	data, _ := os.ReadFile(probe)
+	second := filepath.Join(dir, "second.log")
+	third := filepath.Join(dir, "third.log")
+	os.WriteFile(second, data, 0644)
+	os.WriteFile(third, data, 0644)
+	type rec struct {
+		Regex  string         `json:"regex"`
+		Invert bool           `json:"invert"`
+		B      int            `json:"b"`
+		A      int            `json:"a"`
+		M      int            `json:"m"`
+		Single []int          `json:"single"`
+		Multi  map[string][]int `json:"multi"`
+		Note   string         `json:"note"`
+	}
+	var recs []rec
+	run := func(what, pattern string, inv bool, ltx lcontext.LContext) (map[string][]int, string) {
+		note := ""
+		args := config.Args{ConfigFile: "none", Serverless: true, What: what, RegexStr: pattern, RegexInvert: inv, LContext: ltx,
+			Quiet: true, NoColor: true, UserName: "vuser", Mode: omode.GrepClient, ConnectionsPerCPU: 10}
+		out := c12Capture(func() {
+			defer func() {
+				if r := recover(); r != nil {
+					note = fmt.Sprintf("panic: %v", r)
+				}
+			}()
+			client, err := NewGrepClient(args)
+			if err != nil {
+				note = err.Error()
+				return
+			}
+			ctx, cancel := context.WithTimeout(context.Background(), 30*time.Second)
+			client.Start(ctx, make(chan string))
+			cancel()
+		})
+		sel := map[string][]int{}
+		for _, l := range strings.Split(out, "\n") {
+			f := strings.SplitN(l, "|", 6)
+			if len(f) != 6 || f[0] != "REMOTE" {
+				continue
+			}
+			if m := c12LineRe.FindStringSubmatch(f[5]); m != nil {
+				var n int
+				fmt.Sscanf(m[1], "%d", &n)
+				sel[f[4]] = append(sel[f[4]], n)
+			}
+		}
+		return sel, note
+	}
+	_ = lines
+	for _, c := range []struct {
+		p   string
+		inv bool
+		ltx lcontext.LContext
+	}{
+		{"a", false, lcontext.LContext{MaxCount: 2}}, {"=", false, lcontext.LContext{AfterContext: 1}}, {";", false, lcontext.LContext{BeforeContext: 2}},
+		{"é", true, lcontext.LContext{MaxCount: 3, AfterContext: 1, BeforeContext: 1}}, {"a a", false, lcontext.LContext{}}, {":", true, lcontext.LContext{MaxCount: 1}},
+	} {
+		single, n1 := run(probe, c.p, c.inv, c.ltx)
+		multi, n2 := run(probe+","+second+","+third, c.p, c.inv, c.ltx)
+		recs = append(recs, rec{c.p, c.inv, c.ltx.BeforeContext, c.ltx.AfterContext, c.ltx.MaxCount, single["probe.log"], multi, n1 + n2})
+	}
+	vWriteJSON(t, "VERIF_OUT", recs)
 }
